@@ -663,8 +663,11 @@ main(int argc, char **argv) {
           c.con = 0;
           c.allow_dup = 0;
           add(c);
-          c.con = 1;
+          /* ... and under duplication: no message-layer de-duplication helps a NON transfer, the block layer's own
+           * record of received blocks is all there is */
           c.allow_dup = 1;
+          add(c);
+          c.con = 1;
         }
         /* abandonment: the server side goes silent after datagram j */
         for (int j = 1; j <= (T ? 9 : 5); j += (T ? 1 : 2)) {
